@@ -378,8 +378,51 @@ def nonce_shared_across_runs(f):
     return (len(bad) == 2), bad[:1]
 
 
+def wire_vector_mismatch(f):
+    """C19 (and layout findings of C11/C13): a proof / mask recorded from the pinned tree with the real crates is no longer reproduced
+    byte for byte by the current tree (same scenario, same deterministic inputs)"""
+    import json, os
+    from lib import VERIF
+    vec = json.load(open(os.path.join(VERIF, 'replay', 'vectors', 'v040.json')))
+    want_seeded = f.detail.get('only_seeded')
+    bad = []
+    for v in vec:
+        if want_seeded and not v['cfg']['members'][0]['seeded']:
+            continue
+        o = run_replay(v['cfg'], v['seed'])
+        if 'crash' in o:
+            bad.append({'cfg': v['cfg'], 'crash': True})
+            continue
+        pr = o['prove'][0]
+        if pr['result'] != 'ok':
+            bad.append({'cfg': v['cfg'], 'prove': pr['result']})
+        elif pr['proof']['hex'] != v['proof_hex']:
+            bad.append({'cfg': v['cfg'], 'difference': 'proof bytes differ from the recorded 0.4.0 proof'})
+        elif not o.get('verify') or o['verify'][0]['result'] != 'ok' or o['verify'][0]['masks'] != v['masks']:
+            bad.append({'cfg': v['cfg'], 'difference': 'recorded proof no longer verifies / recovers the recorded mask'})
+        if len(bad) >= 2:
+            break
+    return (len(bad) > 0), bad[:2]
+
+
 def seed_nonce_vector(f):
-    return None, 'seed-derived nonce layout: replayed by the recorded vectors of C19'
+    f.detail['only_seeded'] = True
+    return wire_vector_mismatch(f)
+
+
+def wrong_seed_topbyte(f):
+    """C10: a seed that differs from the prover's only in its most significant byte recovers the true mask"""
+    c = f.cfg
+    n, x = c['n'], c.get('x', 1)
+    bad = []
+    for seed in (1, 2, 3):
+        o = run_replay({'scenario': 'batch', 'n': n, 'x': x, 'members': [{'m': 1, 'cap': 1, 'seeded': True, 'tamper_statement': {'op': 'seed_topbyte'}}], 'actions': ['RecoverOnly']}, seed)
+        if 'crash' in o or not o.get('verify'):
+            return None, o
+        v = o['verify'][0]
+        if v['result'] == 'ok' and v['masks'][0] == o['members'][0]['blindings'][0]:
+            bad.append({'mask': v['masks'][0]})
+    return (len(bad) == 3), bad[:1]
 
 
 def relation_disagrees(f):
